@@ -542,6 +542,14 @@ func doSelectRepoSet(shards []*rankedShard, and *query.And) ([]*rankedShard, que
 				return filtered, and
 			}
 
+			// A Branch query for "HEAD" means the first branch of a repository,
+			// whatever its name, while BranchesRepos means the branch named
+			// HEAD. We can only replace if those are the same branch in every
+			// repository we are going to search.
+			if c.List[0].Branch == "HEAD" && !headIsFirstBranch(filtered) {
+				return filtered, and
+			}
+
 			// Every repo wants the same branches, so we can replace RepoBranches
 			// with a list of branch queries.
 			and.Children[i] = &query.Branch{Pattern: c.List[0].Branch, Exact: true}
@@ -554,6 +562,24 @@ func doSelectRepoSet(shards []*rankedShard, and *query.And) ([]*rankedShard, que
 	}
 
 	return shards, and
+}
+
+// headIsFirstBranch reports whether in every repository of shards the first
+// branch, and only the first, is named HEAD.
+func headIsFirstBranch(shards []*rankedShard) bool {
+	for _, s := range shards {
+		for _, repo := range s.repos {
+			if len(repo.Branches) == 0 {
+				return false
+			}
+			for i, b := range repo.Branches {
+				if (b.Name == "HEAD") != (i == 0) {
+					return false
+				}
+			}
+		}
+	}
+	return true
 }
 
 func (ss *shardedSearcher) Search(ctx context.Context, q query.Q, opts *zoekt.SearchOptions) (sr *zoekt.SearchResult, err error) {
